@@ -43,7 +43,7 @@ class C13:
     assumptions = ["the target CPython's marshal and interpreter are ground truth",
                    "programs are deterministic and terminate (bounded loops, no imports); a 10 s timeout on the ORIGINAL "
                    "file rejects the case"]
-    budgets = {"quick": {"shards": 14, "examples": 70, "seconds": 85},
+    budgets = {"quick": {"shards": 14, "examples": 120, "seconds": 70},
                "thorough": {"shards": 16, "examples": 1200, "seconds": 1500}}
 
     def strategy(self, ctx):
